@@ -55,6 +55,7 @@ import CatVerif.Proofs.UnitsU
 import CatVerif.Proofs.UnitsM
 import CatVerif.Proofs.Steps.Wait
 import CatVerif.Proofs.Steps.Output
+import CatVerif.Proofs.Setters.Flush
 namespace Cat
 open St
 
@@ -291,5 +292,15 @@ of the source (translator item T10; the model's ghost check and events marked in
 theorem C11_output_steps_generated :
     processIoWrite = Gen.process_io_write ∧ unsolicitedProcessIoWrite = Gen.unsolicited_process_io_write :=
   ⟨processIoWrite_generated, unsolicitedProcessIoWrite_generated⟩
+
+/-- how a unit is started — the output cursor at 0, the opening line break as first source, the phase, the state to
+continue in, FLUSH_IO_WRITE_WAIT as next state; for a command-list line no opening break — is translated from
+`start_flush_io_buffer`, `unsolicited_start_flush_io_buffer` and `start_flush_io_buffer_raw` on every run (translator
+item T7; `flushStart` is the model's ghost event) -/
+theorem C11_unit_start_generated (D : Desc) (s : St) (a : After) :
+    startFlush s .cmd a = (Gen.start_flush_io_buffer D s a).emit (.flushStart .cmd false) ∧
+    startFlush s .uns a = (Gen.unsolicited_start_flush_io_buffer D s a).emit (.flushStart .uns false) ∧
+    startFlushRaw s a = (Gen.start_flush_io_buffer_raw D s a).emit (.flushStart .cmd true) :=
+  ⟨rfl, rfl, rfl⟩
 
 end Cat
